@@ -1,6 +1,8 @@
 package props
 
 import (
+	"go/types"
+	"sort"
 	"strings"
 
 	"verif/checker/internal/an"
@@ -18,7 +20,7 @@ func c15(c *Ctx) {
 		"tl.DecodeUnknownObject (VTA call graph plus CHA edges for the reflection-fed tl interfaces, so every UnmarshalTL is included). Each site is " +
 		"discharged by a machine-checked side condition (dominating Kind()/len/>=0 guard, non-negative-by-construction size, comma-ok form, population " +
 		"conditions P1–P4/K/T over all registered types), accepted in triage.json with a reason, or reported."
-	r.NotDecided = []string{"total memory proportionality as a number", "recursion depth", "nil dereferences (not part of the census)"}
+	r.NotDecided = []string{"total memory proportionality as a number", "recursion depth", "nil dereferences other than the two kinds R15.N and the error-path rule of the census look at"}
 	r.Rule("R15.C", "every panic-capable operation reachable from Decode/DecodeUnknownObject is discharged, accepted with a reason, or a finding", 30)
 	var entries []*ssa.Function
 	for _, n := range []string{"Decode", "DecodeUnknownObject"} {
@@ -31,6 +33,7 @@ func c15(c *Ctx) {
 	r.Rule("R15.T", "every loop whose bound comes from the wire leaves on the sticky decoder error", 2)
 	c.loopTermination("R15.T", fns)
 	c.readerLoops("R15.T", fns)
+	c.nilTypes("R15.N", fns)
 	n, d, a := c.runCensus("R15.C", fns, nil, conds)
 	r.Extra["census_functions"] = len(fns)
 	r.Extra["census_sites"] = n
@@ -250,4 +253,80 @@ func (c *Ctx) readerLoops(rule string, fns []*ssa.Function) {
 			}
 		}
 	}
+}
+
+// nilTypes (R15.N): reflect.TypeOf(nil) is a nil reflect.Type, and any method call on it is a nil dereference.
+// Every method call on a reflect.TypeOf(y) result needs y non-nil at the call; the decoder's values are non-nil
+// by its sticky-error discipline, which is checked, not assumed: the error field is only ever stored non-nil
+// errors, a function's nil result implies the field is set, results are used where the field is still clear.
+func (c *Ctx) nilTypes(rule string, fns []*ssa.Function) {
+	r := c.R
+	r.Rule(rule, "a method is called on reflect.TypeOf(y) only where y is not nil: y is boxed on the spot, tested against nil, or held in a field every store of which is a function result used with the sticky decoder error still clear - the functions return nil only with the error set, and the error field is never stored a nil", 30)
+	var pop []*ssa.Function
+	for f := range c.P.AllFunctions() {
+		if f.Pkg != nil && f.Pkg.Pkg.Path() == load.TLPkg && f.Synthetic == "" && len(f.Blocks) > 0 {
+			pop = append(pop, f)
+		}
+	}
+	sort.Slice(pop, func(i, j int) bool { return pop[i].String() < pop[j].String() })
+	isErr := func(fa *ssa.FieldAddr) bool {
+		k, st := fieldKeyOf(fa)
+		return st != nil && strings.HasSuffix(k, load.TLPkg+".Decoder.err")
+	}
+	nn := &an.NonNil{IsErrField: isErr, Funcs: pop}
+	// the error field is monotone
+	ns := 0
+	for _, f := range pop {
+		stores, ok := nn.StickyStores(f)
+		for i, st := range stores {
+			ns++
+			r.Check(ok[i], rule, sprintf("sticky:%s#%d", an.ShortName(f), i+1), c.pos(st.Pos()), "the decoder's error field may be stored a nil error here: an earlier failure would be forgotten, and every 'returns nil only with the error set' argument with it")
+		}
+	}
+	if ns == 0 {
+		r.Undecide(rule, "sticky:stores", "", "no store to tl.Decoder.err found")
+	}
+	sites := 0
+	for _, f := range fns {
+		ord := 0
+		for _, b := range f.Blocks {
+			for _, in := range b.Instrs {
+				ci, ok := in.(ssa.CallInstruction)
+				if !ok || !ci.Common().IsInvoke() {
+					continue
+				}
+				call, ok := ci.Common().Value.(*ssa.Call)
+				if !ok || an.CalleeName(call.Common()) != "reflect.TypeOf" || len(call.Call.Args) != 1 {
+					continue
+				}
+				sites++
+				ord++
+				y := call.Call.Args[0]
+				key := sprintf("typeof:%s/%s#%d", an.ShortName(f), ci.Common().Method.Name(), ord)
+				if p, isParam := y.(*ssa.Parameter); isParam && f.Name() == "Decode" && f.Signature.Recv() == nil && f.Pkg.Pkg.Path() == load.TLPkg {
+					r.Hold(rule, key, c.pos(in.Pos()), "the value is parameter "+p.Name()+" of the entry point: the caller's own destination, not wire data")
+					continue
+				}
+				nn.Why = ""
+				if nn.Value(y, b, 0) {
+					r.Hold(rule, key, c.pos(in.Pos()), "non-nil: "+strings.Join(nn.Notes, "; "))
+				} else {
+					r.Violate(rule, key, c.pos(in.Pos()), "method "+ci.Common().Method.Name()+" is called on reflect.TypeOf(y), and y may be nil here ("+nn.Why+"): a nil reflect.Type, a nil dereference")
+				}
+			}
+		}
+	}
+	r.Extra["typeof_sites"] = sites
+}
+
+func fieldKeyOf(fa *ssa.FieldAddr) (string, *types.Struct) {
+	pt, ok := fa.X.Type().Underlying().(*types.Pointer)
+	if !ok {
+		return "", nil
+	}
+	st, ok := pt.Elem().Underlying().(*types.Struct)
+	if !ok {
+		return "", nil
+	}
+	return pt.Elem().String() + "." + st.Field(fa.Field).Name(), st
 }
